@@ -50,6 +50,13 @@ def ValidKey (cfg : Cfg) (key : Key) : Prop := 2 * cfg.shardLength ≤ key.lengt
 
 instance (cfg : Cfg) (key : Key) : Decidable (ValidKey cfg key) := by unfold ValidKey; exact inferInstance
 
+/-- `store.validKey`: the key names a directory of its own below the shard directories. Keys that do not
+(empty, ".", "..", with a separator, with a ".." shard component) are refused by `Create`; the model's
+paths treat components as opaque names, so the hazard itself (such a key's directory IS another
+directory) is not expressible here: the refusal keeps those keys out of the store. -/
+def cleanKey (cfg : Cfg) (key : Key) : Bool :=
+  key ≠ "" && key ≠ "." && key ≠ ".." && !key.toList.contains '/' && (shards cfg key).all (· ≠ "..")
+
 /-! ### in-memory state -/
 
 structure Blob where
@@ -65,7 +72,7 @@ structure Mem where
   deriving Repr
 
 inductive Res where
-  | ok | notExist | exist | noSpace | mdMissing | ioExist | ioNotExist | panic
+  | ok | notExist | exist | noSpace | mdMissing | ioExist | ioNotExist | panic | invalidKey
   deriving DecidableEq, Repr
 
 structure Out where
@@ -78,8 +85,12 @@ def digitsRev : Nat → Nat → List Nat
   | 0, _ => []
   | fuel + 1, n => (48 + n % 10) :: (if n / 10 = 0 then [] else digitsRev fuel (n / 10))
 
-/-- `strconv.Itoa` of a size (sizes below 2^63: `int(sizeBytes)` is not negative) -/
-def encodeNat (n : Nat) : Bytes := (digitsRev (n + 1) n).reverse
+/-- decimal digits -/
+def encodeDec (n : Nat) : Bytes := (digitsRev (n + 1) n).reverse
+
+/-- `strconv.Itoa(int(sizeBytes))`: a size of 2^63 or more is a negative `int` (and reads back, through
+`uint64(Atoi …)`, as itself) -/
+def encodeNat (n : Nat) : Bytes := if n < 2 ^ 63 then encodeDec n else 45 :: encodeDec (2 ^ 64 - n)
 
 def digitVal? (b : Nat) : Option Nat := if 48 ≤ b ∧ b ≤ 57 then some (b - 48) else none
 
@@ -259,7 +270,7 @@ def writeAtMd (cfg : Cfg) (m : Mem) (fs : FS Name) (k : Key) (md : MdId) (off : 
 
 /-- one public operation: new in-memory state, the file-system calls in order, the result -/
 def exec (cfg : Cfg) (o : Order Name) (m : Mem) (fs : FS Name) : Op → Out
-  | .create k sz => create cfg o m fs k sz
+  | .create k sz => if cleanKey cfg k then create cfg o m fs k sz else ⟨m, [], .invalidKey⟩
   | .write k off b => write cfg m fs k off b
   | .markComplete k => markComplete cfg m fs k
   | .delete k => delete cfg o m fs k
